@@ -200,6 +200,8 @@ class Lab:
                 return
             self.stats['traces_compared'] = res.stats.get('traces_compared', 0)
             rc.close()
+            # every child opens a fresh handle (no cached pack id): tell the model
+            runner._ask('store op a reopen')  # pylint: disable=protected-access
             self._target(rng, runner, rc, cfg, pool, scratch, op)
         finally:
             if runner is not None:
